@@ -70,8 +70,10 @@ def k_images(order):
     paths = ["z.iso", "a.iso", "m/b.iso", "B.iso", "0.iso"]
     for i in order:
         # part 2 is a unified image whose additional_variants (a caller-ordered list: content) is not in sorted order
-        m.add("Server", "x86_64", samples.image(m, path=paths[i - 1], subvariant="S%d" % i,
-                                                sums={"sha256": "%x" % i * 64, "md5": "%x" % i * 32},
+        # part 4 is the file of part 1 published under a second path: same identity, same checksums - both records are content
+        j = 1 if i == 4 else i
+        m.add("Server", "x86_64", samples.image(m, path=paths[i - 1], subvariant="S%d" % j,
+                                                sums={"sha256": "%x" % j * 64, "md5": "%x" % j * 32},
                                                 unified=(i == 2), av=(["Workstation", "Client", "Atomic"] if i == 2 else ())))
         if i == 1:
             m.add("Server", "ppc64le", samples.image(m, path="p.iso", subvariant="P"))
@@ -117,9 +119,13 @@ def k_platforms(order):
 
 def k_checksums(order):
     t = samples.treeinfo(0)
-    ps = ["images/boot.iso", "Repo/repomd.xml", "a", "Z/z", "0/0"]
+    # part 4 is a second spelling of part 3's path, as an older file had it (kept verbatim on load): an entry of its own
+    ps = ["images/boot.iso", "Repo/repomd.xml", "a", "./a", "0/0"]
     for i in order:
-        t.checksums.add(ps[i - 1], "sha256", "%x" % i * 64)
+        if i == 4:
+            t.checksums.checksums[ps[i - 1]] = ["md5", "4" * 32]
+        else:
+            t.checksums.add(ps[i - 1], "sha256", "%x" % i * 64)
     return t
 
 
@@ -166,6 +172,15 @@ def _between_extra_files(obj):
     import io
     obj.dump_for_tree(io.StringIO(), "Server", "x86_64", "Server/x86_64/os")
     obj.dump_for_tree(io.StringIO(), "Server", "x86_64", "Server/x86_64/os/")
+
+
+def _edit(obj):
+    """A legal edit of an object that may have been dumped before: the bytes afterwards must be those of a never-dumped object
+    given the same edit."""
+    if hasattr(obj, "tree"):
+        obj.tree.arch = "ppc64le" if obj.tree.arch != "ppc64le" else "s390x"
+    else:
+        obj.compose.respin += 1
 
 
 def _between_treeinfo(obj):
@@ -241,6 +256,15 @@ def worker(orders, dumps):
                 fails.append("%s order %s: %s: %s" % (kind, order, type(exc).__name__, exc))
                 continue
             out[kind]["".join(map(str, order))] = [hashlib.sha1(t.encode()).hexdigest() for t in texts]
+            try:
+                _edit(obj)
+                fresh = fn(order)
+                _edit(fresh)
+                if obj.dumps() != fresh.dumps():
+                    fails.append("%s order %s: dumped %d times, then edited (tree arch / compose respin): the bytes differ from those of a "
+                                 "never-dumped object given the same edit" % (kind, order, len(texts)))
+            except Exception as exc:
+                fails.append("%s order %s: edit after dumping: %s: %s" % (kind, order, type(exc).__name__, exc))
             text = texts[0]
             for t_i, t in enumerate(texts):
                 bad = caller_order(kind, order, t)
